@@ -171,6 +171,26 @@ def _guarded_not_none(ctx: Ctx, f: Func, use: ast.AST, text: str) -> bool:
     return False
 
 
+def _callers_guard(ctx: Ctx, g: Func, pname: str) -> bool:
+    """Every resolved call of private function g passes, for parameter pname, an expression A under a path condition
+    that makes `A._children` a non-empty list."""
+    env = ctx.env
+    sites = 0
+    for f in ctx.model.all_funcs():
+        for c in env.calls_in[f]:
+            for g2, recv in env.callees(f, c):
+                if g2 is not g:
+                    continue
+                bound = recv is not None or g.name == "__init__" or g.kind == "classmethod"
+                a = env._actual_for(g, c, pname, bound=bound)
+                if a is None:
+                    return False
+                sites += 1
+                if not _guarded_not_none(ctx, f, c, f"{norm(a)}._children"):
+                    return False
+    return sites > 0
+
+
 def _contains(outer: ast.AST, inner: ast.AST) -> bool:
     return any(x is inner for x in ast.walk(outer))
 
@@ -199,6 +219,9 @@ def opt_deref(ctx: Ctx) -> List[Ob]:
                 if own_parent:
                     continue
                 ok = _guarded_not_none(ctx, f, n if not isinstance(n, ast.comprehension) else target, txt)
+                if not ok and isinstance(target.value, ast.Name) and target.value.id in f.param_names() and f.name.startswith("_") and not f.name.startswith("__"):
+                    # a private helper's precondition: every call site passes a node whose list it has just tested
+                    ok = _callers_guard(ctx, f, target.value.id)
                 # local alias tested: c = x._children; if c: ...
                 props = ["C14"] if f.qualname in ("Tree.to_dict_list", "Node.to_dict") else ["C15"] if (f.top.cls or "").startswith("Typed") else ["C10"]
                 obs.append(ctx.ob("OPT-DEREF", props, f, f"{txt} {kind}", target, ok,
